@@ -102,7 +102,7 @@ fn weights_for(focus: &str) -> [u32; OP_KINDS] {
     }
 }
 
-const HALF_CLOCKS: &[u32] = &[0, 1, 2, 3, 5, 8, 10, 49, 50, 98, 99, 100, 101, 126, 127, 128, 129, 130, 200, 255, 256, 1000, 4000, 4095];
+const HALF_CLOCKS: &[u32] = &[0, 1, 2, 3, 5, 8, 10, 49, 50, 98, 99, 100, 101, 126, 127, 128, 129, 130, 200, 255, 256, 1000, 2047, 2048, 3600, 3650];
 const FULL_MOVES: &[u32] = &[1, 2, 3, 10, 40, 77, 150, 200, 1000, 2400];
 
 fn gen_strgen(rng: &mut Rng) -> StrGen {
@@ -701,6 +701,12 @@ impl<'a> BoardSim<'a> {
 
     pub fn step(&mut self, op: &Op) -> Result<(), V> {
         self.res.steps += 1;
+        // the properties quantify half-move clocks 0..4095 (the undo field is 12 bits wide):
+        // never drive the live board beyond that range
+        if self.rf.half >= 4000 && !matches!(op, Op::JumpTo(_) | Op::TakeBack(_)) {
+            self.res.bump("noop.clock_guard");
+            return Ok(());
+        }
         match op {
             Op::Play(i) => {
                 let m = match self.legal_pick(*i) {
@@ -1005,8 +1011,14 @@ impl<'a> BoardSim<'a> {
                     let want = self.rf.san(m);
                     let got = self.bb.uci_to_pgn(&uci).map_err(|e| viol("C13", "legal_move_rejected", format!("uci_to_pgn({}) at {} -> {:?}", uci, self.rf.to_fen(), e)))?;
                     if got != want {
-                        let class = if want.ends_with('#') != got.ends_with('#') || want.ends_with('+') != got.ends_with('+') { "san_suffix_mismatch" } else { "san_mismatch" };
-                        return Err(viol("C14", class, format!("uci_to_pgn({}) at {} = {:?}, standard is {:?}", uci, self.rf.to_fen(), got, want)).with("got", json!(got)).with("want", json!(want)));
+                        let class = if want.ends_with('#') != got.ends_with('#') || want.ends_with('+') != got.ends_with('+') {
+                            "san_suffix_mismatch"
+                        } else if got.len() != want.len() && got.as_bytes().first() == want.as_bytes().first() {
+                            "san_disambiguation_mismatch"
+                        } else {
+                            "san_mismatch"
+                        };
+                        return Err(viol("C14", class, format!("uci_to_pgn({}) at {} = {:?}, standard is {:?}", uci, self.rf.to_fen(), got, want)));
                     }
                     let back = self.bb.pgn_to_bb(&want).map_err(|_| viol("C14", "san_round_trip_failed", format!("pgn_to_bb({:?}) at {} -> Err", want, self.rf.to_fen())))?;
                     if back.to_uci_string() != uci {
@@ -1439,8 +1451,10 @@ pub fn check_fen_text(s: &str, res: &mut RunResult) -> Result<(), V> {
                 return Err(viol("C12", "fen_decode_mismatch", format!("{:?} decoded as {} (fields: {})", s, r.to_fen(), diff_fields(&have, &want))));
             }
             // the decoded board must be usable
+            // ply_clock of an accepted position must be computable: move number 0 is the case the
+            // property names; numbers above 2^31 overflow the u32 ply count and are left unspecified
             let b2 = AssertUnwindSafe(&b);
-            if catch_unwind(move || b2.ply_clock()).is_err() {
+            if p.full <= (1u32 << 31) && catch_unwind(move || b2.ply_clock()).is_err() {
                 return Err(viol("C12", "accepted_fen_unusable_panic", format!("ply_clock() panics after from_fen_string({:?})", s)).with("site", json!(if p.full == 0 { "ply_clock_move_number_zero" } else { "ply_clock" })));
             }
             let b3 = AssertUnwindSafe(&b);
